@@ -152,6 +152,25 @@ class Tree:
             kw.setdefault("time_coverage", self.cov)
         return FileSet(os.path.join(self.root, self.tmpl), **kw)
 
+    def zipped(self, **kw):
+        """The same tree inside a zip archive, opened through fsspec: -> (FileSet, ids(infos), path_of(id))"""
+        import zipfile
+        from fsspec.implementations.zip import ZipFileSystem
+        from typhon.files import FileSet
+        self.zip_path = self.root.rstrip("/") + ".zip"
+        with zipfile.ZipFile(self.zip_path, "w") as z:
+            for d, _, fs_ in os.walk(self.root):
+                for f in fs_:
+                    p = os.path.join(d, f)
+                    z.write(p, os.path.relpath(p, self.root))
+        if self.cov is not None:
+            kw.setdefault("time_coverage", self.cov)
+        fs = FileSet(self.tmpl, fs=ZipFileSystem(self.zip_path), **kw)
+        rel = {os.path.relpath(p, self.root): i for p, i in self.id_of.items()}
+        ids = lambda infos: [rel.get(getattr(x, "path", x).lstrip("/"), -1) for x in infos]
+        path_of = lambda i: os.path.relpath(self.path_of[i], self.root)
+        return fs, ids, path_of
+
     def ids(self, infos):
         out = []
         for x in infos:
@@ -161,6 +180,8 @@ class Tree:
 
     def remove(self):
         shutil.rmtree(self.root, ignore_errors=True)
+        if getattr(self, "zip_path", None) and os.path.exists(self.zip_path):
+            os.remove(self.zip_path)
 
 
 def filters_of(white, black):
